@@ -37,6 +37,36 @@ CHECKS = {
  "C14": ("exploration", "runtime monitor: print/re-parse stability + independent recursive-descent parser oracle; IPLD/DAG-JSON policy round trips incl. structure mutants",
          "Every accepted selector text (exhaustive over a 9-character alphabet to length 5/6, rendered ASTs, character mutants, all prefixes/suffixes) must print to a text that re-parses to the same segments and the same Select results, mean what an independent parser says, and never be accepted with a malformed part dropped; policies must survive FromIPLD/ToIPLD and FromDagJson deep-equal (mod selector normalisation), also after structure mutation, and constructor-built policies keep their matching behaviour.",
          "trusts ref.ParseSel; texts with backslash / quotes inside quoted names only checked for stability", "DESIGN.md §4 C14"),
+ "C06": ("fault_enumeration", "runtime monitor: fault enumeration over sealed bytes (every bit flip, byte edits at every offset, field/signature/header/shape rewrites) with independent-verifier and field-equality oracles",
+         "Every single-bit flip and byte edit of sealed tokens (both types, several key algorithms and payload shapes), field-level rewrites with the old signature, signature transplants / truncations, header swaps (plain and re-signed), envelope shape edits and DAG-JSON text edits are offered to every decoder (generic/typed, bytes/reader). Any accepted mutant must (O1) equal the original token on every field, (O2) pass an independent envelope verifier written in the harness, (O3) show accessors equal to the decoded signed payload. The fault space of each base token is enumerated completely (sampled 1-in-4/16 for the slow algorithms in the quick tier).",
+         "trusts libp2p/Go signature primitives and ref.VerifyEnvelope; ECDSA s-malleability is judged by C08", "DESIGN.md §4 C06"),
+ "C07": ("exploration", "runtime monitor: round-trip (metamorphic) oracle over generated token descriptions x key algorithms x codecs x decoder variants",
+         "Generated tokens of both types (all option combinations, nested values of every kind, all seven key kinds, extreme time bounds, integral floats, null values) are built with the constructors, sealed / encoded and decoded by every generic and typed decoder (bytes and reader, DAG-CBOR and DAG-JSON); every field read back through the accessors must equal the constructed token and all decoders must agree.",
+         "field comparison through accessors only; inputs restricted to what DAG-JSON can represent (valid UTF-8, no {\"/\":..} maps)", "DESIGN.md §4 C07"),
+ "C08": ("fault_enumeration", "runtime monitor: CID agreement oracle + complete enumeration of single-knob CBOR re-encodings and keyless signature re-encodings that must all be rejected",
+         "The CID returned by every seal/unseal API and used as container key is compared with sha2-256/dag-cbor computed by the harness; then every data-preserving re-encoding of each sealed token (each node x each encoding knob, all-knobs, unsigned extra envelope elements, ECDSA s-flip / DER variants) that the dependency decoder maps to the same data is offered to every FromSealed* and container reader and must be rejected.",
+         "trusts the harness CBOR item model (ref/cbor.go) and sha256; variants the dependency decoder does not map to the same data are discarded", "DESIGN.md §4 C08"),
+ "C09": ("exploration", "runtime monitor: process-level supervision (recover, journal-before-call + dead-child attribution, CPU-time and peak-RSS budgets, race-build/checkptr replay) over hostile input families",
+         "Random, mutated, well-signed-but-malformed, bad-key-material, hostile-length and depth-bomb inputs are offered to every untrusted-data entry point under monitors for panics, fatal runtime errors (child process death attributed through a journal), CPU-time budgets and peak memory; depth bombs run one series per process. Sampling of an unbounded space with a fixed list of extreme inputs.",
+         "termination and memory clauses restated as stated budgets (60 s / 300 s CPU, 512 MiB + 4096 x input)", "DESIGN.md §4 C09"),
+ "C10": ("exploration", "runtime monitor: complete field x mutation x decoder matrix on correctly re-signed payloads with a must-reject list and a well-formedness predicate; Go-value exactness oracle",
+         "Every field of full delegation/invocation payloads is dropped, renamed, nulled, retyped to each other kind and set out of range, the envelope shape and tag are varied, and each variant - signed correctly by the issuer with an independent envelope builder - is offered to the generic and both typed decoders in both codecs; must-reject classes may not be accepted and every accepted token must satisfy W through its accessors. Constructors are fuzzed on principals/nonces; args.Add / literal.Any / meta.Add are checked for exact storage of every numeric Go type at its boundaries (nested, pointers, typed nils).",
+         "must-reject list and W are from the property text; metadata integers are not bounded", "DESIGN.md §4 C10"),
+ "C16": ("exploration", "runtime monitor: round-trip and one-principal-one-DID (canonicity) oracles over pool + fresh keys and ~40 alternative encodings per key",
+         "For keys of every generatable algorithm: FromPubKey -> String -> Parse -> PubKey round trip, DID equality vs key equality on all pairs, and every alternative encoding of the key material (uncompressed/hybrid/off-curve/padded/truncated points, PKIX and non-minimal DER for RSA, non-minimal varints, other multibases, textual variants) must be rejected or be the canonical identifier of the extracted key; PubKey() panics are caught.",
+         "key equality is libp2p PubKey.Equals; alternative encodings built by the harness from coordinates / DER", "DESIGN.md §4 C16"),
+ "C17": ("exploration", "runtime monitor: full writer x reader matrix round-trip oracle + single-entry corruption injection with harness-built CAR/CBOR framing",
+         "For token sets of size 0..40 all 16 writer/reader combinations of the four formats must return exactly the set under harness-computed CIDs with tokens equal to direct decodes; containers assembled by the harness's own CAR/CBOR encoders with one corrupted, unverifiable, truncated or mislabelled entry (and framing faults) must fail to read.",
+         "CID by ref.CID; CAR blocks under a different but matching codec/hash are not judged", "DESIGN.md §4 C17"),
+ "C18": ("fault_enumeration", "runtime monitor: I/O fault enumeration - read error / early EOF at every byte offset, write error at every Write call - plus chunking agreement",
+         "For sealed tokens, DAG-JSON tokens and the four container formats: every chunking must agree with the in-memory decode; a read error ((0,err) and (n>0,err)) or early EOF injected at EVERY byte offset must surface as an error (except a CAR cut on a section boundary, which must yield exactly the preceding blocks); for every writer API a write error injected at EVERY Write call, including the final flush, must surface; stream bytes and CIDs must equal the buffered calls.",
+         "CAR boundaries from ref.SplitCAR; write faults are (0, err)", "DESIGN.md §4 C18"),
+ "C19": ("fault_enumeration", "runtime monitor: exhaustive ciphertext tampering (every bit, every truncation) + round-trip, freshness and key-validation oracles",
+         "Encrypted metadata of many plaintext lengths is read back with the right key before and after seal/unseal in both codecs; every single-bit flip and every truncation of the stored ciphertext, and a second random key, must fail; plaintext must be absent from stored/sealed bytes; nonces pairwise distinct; nil, every wrong length 0..64 and all-zero keys refused on add and get.",
+         "confidentiality restated as its observable consequences; no cryptanalytic claim", "DESIGN.md §4 C19"),
+ "C20": ("exploration", "Go race detector (-race build, GORACE log files counted and attributed) under a concurrent read-only workload + schedule-independent snapshot oracle + concurrent-vs-alone result oracle",
+         "Phase A runs each of 26 read-only operations alone between two deep accessor snapshots (incl. key iteration order) of tokens with 0..300 unsorted argument/metadata keys. Phase B runs 2..64 goroutines of random operation mixes on shared tokens in the -race build: every race report with a go-ucan frame is a violation, every concurrent result must equal the result computed alone; the evidence counts the (opA,opB) pairs that actually overlapped on the same token.",
+         "interleavings observed are those the stress runs produced (counted); the race detector adds happens-before analysis", "DESIGN.md §4 C20"),
 }
 
 BUILT_LATER = {}
